@@ -446,27 +446,29 @@ def natural_run(rng, keys, mode="keyed"):
     return segs, list(w.monitor), list(log)
 
 
-def explore(keys, mode="keyed", skip_noops=False, limit=None):
-    """Breadth-first enumeration of every state the real code can be driven to by any schedule
-    (states identified by the complete observation), checking every transition out of every state.
-    Yields (path, choice, observation after, monitor failures)."""
+def explore(keys, mode="keyed", skip_noops=False):
+    """Breadth-first enumeration of every state the real code can be driven to by ANY schedule
+    (states identified by the complete observation).  For every state: the path to it, its
+    observation, and the observation after each choice.  Returns (entries, monitor failures)
+    with entries = [(path, obs, [(choice, obs_after), ...])]."""
     n = len(keys)
-    init_obs = None
-    seen = {}
-    frontier = [[]]
     all_choices = [code(k, i) for i in range(n) for k in (RUN, OPEN, CANCEL)]
-    nstates = 0
+    entries, failures = [], []
     with stepping():
+        w = World(keys, mode)
+        w.spawn_all()
+        init_obs = w.observe()
+        w.dispose()
+        seen = {tuple(init_obs)}
+        frontier = [([], init_obs)]
         while frontier:
             nxt = []
-            for path in frontier:
+            for path, obs in frontier:
+                fans = []
                 for c in all_choices:
                     w = World(keys, mode)
                     w.spawn_all()
                     try:
-                        if init_obs is None:
-                            init_obs = tuple(w.observe())
-                            seen[init_obs] = True
                         for d in path:
                             w.do(d)
                         if skip_noops and c not in w.enabled():
@@ -475,17 +477,33 @@ def explore(keys, mode="keyed", skip_noops=False, limit=None):
                         o = w.observe()
                         if w.all_done():
                             w.final_monitor()
+                        for m in w.monitor:
+                            failures.append((m, path + [c]))
+                        fans.append((c, o))
                         key = tuple(o)
-                        yield path, c, o, list(w.monitor)
                         if key not in seen:
-                            seen[key] = True
-                            nstates += 1
-                            nxt.append(path + [c])
-                            if limit is not None and nstates >= limit:
-                                return
+                            seen.add(key)
+                            nxt.append((path + [c], o))
                     finally:
                         w.dispose()
+                entries.append((path, obs, fans))
             frontier = nxt
+    return entries, failures
+
+
+def fan_expr(keys, path, obs, fans, exact=True):
+    return "check_fan %s %s %s %s" % (gzlist(keys), gzlist(path), gzlist(obs) if exact else "[]",
+                                      glist("(%d, %d)" % (c, fp(o)) for c, o in fans))
+
+
+def explore_job(args):
+    """Worker for multiprocessing: exhaustive exploration of one configuration."""
+    keys, skip_noops, exact = args
+    entries, failures = explore(keys, skip_noops=skip_noops)
+    exprs = [fan_expr(keys, p, o, f, exact) for p, o, f in entries]
+    ntrans = sum(len(f) for _, _, f in entries)
+    maxlen = max((len(p) for p, _, _ in entries), default=0)
+    return keys, exprs, len(entries), ntrans, maxlen, failures[:5]
 
 
 # ---- Coq side ----
